@@ -5,7 +5,9 @@ usage: python -m xv.impl.c07x_phases_worker <in.json> <out.json>
 in:  {"cases": [program], "case_timeout": seconds}
      program: {"tasks": [{"val": int, "ups": [[t, "list"|"dict"|"held"]], "root": r}],     r: first task with this configuration
                "codes": {"<r>": [exit code of the 1st, 2nd, ... process started for that configuration]},
-               "phases": [{"name": str, "steps": [{"t": index} | {"wait": true}]}]}
+               "phases": [{"name": str, "steps": [{"t": index} | {"wait": true}], "xp": optional key}]}
+     phases with the same "xp" key are successive `with xp:` blocks on the SAME experiment object (built when the key is first
+     met, with the name of that phase); without a key every phase builds its own `experiment(...)`
 out: [{"phases": [{"exit": "ok"|<exception class>, "msg", "hang": bool, "waits": ["ok"|<exception class>],
                    "submitted": [t], "submit_error": {t: str}, "started": {t: [exit codes of the processes started in this phase]},
                    "states": {t: final state name of the job of every task submitted so far, read when the phase was left}}],
@@ -95,6 +97,7 @@ def main():
                 ws = root / f"ws{ci}"
                 ws.mkdir()
                 objs = {}
+                xps = {}   # "xp" key -> experiment object entered again by later phases
                 tasks = prog["tasks"]
 
                 def build(t):
@@ -120,7 +123,13 @@ def main():
                     with contextlib.redirect_stderr(io.StringIO()):
                         signal.alarm(int(data.get("case_timeout", 60)))
                         try:
-                            with experiment(ws, ph["name"], port=-1, launcher=InstantLauncher(LocalConnector(ws / "conn"))) as xp:
+                            key = ph.get("xp")
+                            xpo = xps.get(key) if key is not None else None
+                            if xpo is None:
+                                xpo = experiment(ws, ph["name"], port=-1, launcher=InstantLauncher(LocalConnector(ws / "conn")))
+                                if key is not None:
+                                    xps[key] = xpo
+                            with xpo as xp:
                                 for st in ph["steps"]:
                                     if st.get("wait"):
                                         try:
